@@ -36,9 +36,9 @@ func init() {
 		ID:    "C09",
 		Level: "exploration",
 		Rule: "case = sketch reached by a seeded history incl. cleared-then-refilled stores, negatives with every store kind and arbitrary non-negative float64 weights: ToProto -> proto.Marshal -> Unmarshal -> FromProtoWithStoreProvider(any kind) must give an Equals mapping and bitwise equal zero weight and bin weights (count within 1e-12); EncodeProto bytes must unmarshal to a message proto.Equal to ToProto(); " +
-			"hand-built messages mixing binCounts and contiguousBinCounts (dyadic weights where they overlap) must add up. Non-trivial = both stores non-empty and >=1 non-integer weight; distinct = hash of the history.",
+			"sources are also reweighted and may hold bins whose weight underflowed to zero (which carry nothing to rebuild); hand-built messages mixing binCounts and contiguousBinCounts (dyadic weights where they overlap, indexes also at both ends of the int32 range) must add up, and the rebuilt sketch written again by both writers must describe the same bins. Non-trivial = both stores non-empty and >=1 non-integer weight; distinct = hash of the history.",
 		Cases:     core.Scale(60000, 1500000),
-		Mandatory: []string{"oracle.proto_roundtrips", "oracle.stream_equals_message", "oracle.mixed_message_checks", "weights.arbitrary", "source.cleared_then_refilled", "proto.target.dense", "proto.target.sparse", "proto.target.paginated", "proto.target.collapsing_lowest", "proto.target.collapsing_highest", "proto.via_FromProto", "proto.via_paginated_method"},
+		Mandatory: []string{"oracle.proto_roundtrips", "oracle.stream_equals_message", "oracle.mixed_message_checks", "weights.arbitrary", "source.cleared_then_refilled", "proto.target.dense", "proto.target.sparse", "proto.target.paginated", "proto.target.collapsing_lowest", "proto.target.collapsing_highest", "proto.via_FromProto", "proto.via_paginated_method", "source.underflowed_bins", "source.reweighted", "mixed.extreme_indexes", "oracle.mixed_second_leg"},
 		Run:       runC09,
 	})
 }
@@ -414,7 +414,34 @@ func runC09(c *core.Ctx) {
 			return
 		}
 	}
-	c.Logf("plain sketch mapping %s store %s, %d values, pattern %s", m.Desc, spec, len(vs.vals), pattern)
+	if r.P(0.3) {
+		f := []float64{0.1, 0.3, 1.7, 1e-3, 2, 0.5}[r.Intn(6)]
+		if c.Guard("Reweight", func() { s.P.Reweight(f) }) {
+			return
+		}
+		c.Count("source.reweighted", 1)
+	}
+	underflowed := false
+	if r.P(0.2) {
+		// bins whose weight underflowed to zero (a tiny weight, then a reweighting): they hold nothing, and
+		// both protobuf writers must still describe the same message
+		c.Guard("underflow", func() {
+			s.P.AddWithCount(vs.vals[r.Intn(len(vs.vals))], 1e-300)
+			s.P.AddWithCount(m.ClampIn(r.LogUniform(1e-3, 1e3)), 1e-300)
+			s.P.AddWithCount(-m.ClampIn(r.LogUniform(1e-3, 1e3)), 1e-300)
+			s.P.Reweight(1e-30)
+			if r.Bool() {
+				s.P.Reweight(1e30)
+			}
+		})
+		if c.Failed() {
+			return
+		}
+		underflowed = true
+		nonInteger = true
+		c.Count("source.underflowed_bins", 1)
+	}
+	c.Logf("plain sketch mapping %s store %s, %d values, pattern %s, underflowed bins %v", m.Desc, spec, len(vs.vals), pattern, underflowed)
 	// arbitrary weights: totals of the sparse store depend on map iteration order, so the unchanged-source
 	// comparison is made on bins and zero weight, bit for bit
 	bp0, _, _ := mon.ForEachBins(s.P.GetPositiveValueStore())
@@ -446,6 +473,10 @@ func runC09(c *core.Ctx) {
 	}
 	srcPos, _, _ := mon.ForEachBins(s.P.GetPositiveValueStore())
 	srcNeg, _, _ := mon.ForEachBins(s.P.GetNegativeValueStore())
+	if underflowed {
+		// a bin of weight zero carries nothing to rebuild
+		srcPos, srcNeg, bp0, bn0 = positiveBins(srcPos), positiveBins(srcNeg), positiveBins(bp0), positiveBins(bn0)
+	}
 	if d := diffBins(bp0, srcPos) + diffBins(bn0, srcNeg); d != "" || math.Float64bits(z0) != math.Float64bits(s.P.GetZeroCount()) {
 		c.Failf("proto.changed_source", "ToProto/EncodeProto changed the sketch: %s", d)
 		return
@@ -543,6 +574,16 @@ func runC09(c *core.Ctx) {
 	}
 }
 
+func positiveBins(b []mon.KV) []mon.KV {
+	out := b[:0:0]
+	for _, e := range b {
+		if e.W > 0 {
+			out = append(out, e)
+		}
+	}
+	return out
+}
+
 func maxInt(a, b int) int {
 	if a > b {
 		return a
@@ -582,13 +623,35 @@ func runC09Mixed(c *core.Ctx) {
 	r := c.R
 	m := gen.RandMap(r, true)
 	centre := r.Range(-2000, 2000)
+	extreme := 0
+	switch r.Intn(8) {
+	case 0:
+		// the top of the protobuf form's int32 index range
+		centre, extreme = math.MaxInt32-45, 1
+		c.Count("mixed.extreme_indexes", 1)
+	case 1:
+		centre, extreme = math.MinInt32+45, -1
+		c.Count("mixed.extreme_indexes", 1)
+	}
+	clip := func(k int) int {
+		if k > math.MaxInt32 {
+			return math.MaxInt32
+		}
+		if k < math.MinInt32 {
+			return math.MinInt32
+		}
+		return k
+	}
 	mk := func() (*sketchpb.Store, map[int]float64) {
 		st := &sketchpb.Store{}
 		want := map[int]float64{}
 		if r.P(0.8) {
 			st.BinCounts = map[int32]float64{}
+			if extreme != 0 && r.Bool() {
+				st.BinCounts[int32(clip(centre+extreme*100))] = float64(r.Range(1, 9))
+			}
 			for i := 0; i < r.Range(1, 20); i++ {
-				k := centre + r.Range(-40, 40)
+				k := clip(centre + r.Range(-40, 40))
 				w := math.Ldexp(float64(r.Range(1, 64)), -r.Range(0, 3))
 				st.BinCounts[int32(k)] += w
 			}
@@ -597,8 +660,11 @@ func runC09Mixed(c *core.Ctx) {
 			}
 		}
 		if r.P(0.8) {
-			st.ContiguousBinIndexOffset = int32(centre + r.Range(-30, 30))
+			st.ContiguousBinIndexOffset = int32(clip(centre + r.Range(-30, 30)))
 			for i := 0; i < r.Range(1, 40); i++ {
+				if int(st.ContiguousBinIndexOffset)+i > math.MaxInt32 {
+					break
+				}
 				w := math.Ldexp(float64(r.Range(0, 64)), -r.Range(0, 3))
 				st.ContiguousBinCounts = append(st.ContiguousBinCounts, w)
 				if w != 0 {
@@ -690,6 +756,37 @@ func runC09Mixed(c *core.Ctx) {
 		cmp("negative", d.GetNegativeValueStore(), wantNeg)
 		if d.GetZeroCount() != msg.ZeroCount {
 			c.Failf("mixed.zero", "zero count %v rebuilt as %v", msg.ZeroCount, d.GetZeroCount())
+		}
+		if c.Failed() {
+			return
+		}
+		// second leg: the rebuilt sketch written again, by both writers, and read into a sparse store
+		var pb2 *sketchpb.DDSketch
+		var buf2 bytes.Buffer
+		if c.Guard("ToProto/EncodeProto", func() { pb2 = d.ToProto(); d.EncodeProto(&buf2) }) {
+			return
+		}
+		var streamed2 sketchpb.DDSketch
+		if err := proto.Unmarshal(buf2.Bytes(), &streamed2); err != nil {
+			c.Failf("stream.unmarshal", "the bytes written by EncodeProto do not unmarshal: %v", err)
+			return
+		}
+		c.Count("oracle.stream_equals_message", 1)
+		if !proto.Equal(&streamed2, pb2) {
+			c.Failf("stream.differs", "EncodeProto bytes unmarshal to a message different from ToProto() (store %s): streamed %v vs message %v", target, shortPB(&streamed2), shortPB(pb2))
+			return
+		}
+		d2, err2 := fromProto(pb2, gen.StoreSpec{Kind: gen.SSparse})
+		if err2 != nil {
+			c.Failf("proto.fromproto", "second leg: %v", err2)
+			return
+		}
+		target = gen.StoreSpec{Kind: gen.SSparse}
+		c.Count("oracle.mixed_second_leg", 1)
+		cmp("positive (written again from "+gen.StoreSpec{Kind: tk}.KindName()+")", d2.GetPositiveValueStore(), wantPos)
+		cmp("negative (written again from "+gen.StoreSpec{Kind: tk}.KindName()+")", d2.GetNegativeValueStore(), wantNeg)
+		if c.Failed() {
+			return
 		}
 	}
 	c.NonTrivial()
